@@ -40,7 +40,7 @@ func imageToGrayDefault(img image.Image, pixels []float32) {
 	s := b.Max.X - b.Min.X
 	for i := 0; i < s; i++ {
 		for j := 0; j < s; j++ {
-			pixels[(i*s)+j] = float32(pixelToGray(img.At(j, i).RGBA()))
+			pixels[(i*s)+j] = float32(pixelToGray(img.At(b.Min.X+j, b.Min.Y+i).RGBA()))
 		}
 	}
 }
@@ -68,8 +68,8 @@ func yCbCrToGrayAlt(img *image.YCbCr, pixels []float32) {
 	s := img.Rect.Max.X - img.Rect.Min.X
 	for y := 0; y < s; y++ {
 		for x := 0; x < s; x++ {
-			yi := img.YOffset(x, y)
-			ci := img.COffset(x, y)
+			yi := img.YOffset(img.Rect.Min.X+x, img.Rect.Min.Y+y)
+			ci := img.COffset(img.Rect.Min.X+x, img.Rect.Min.Y+y)
 
 			yy := img.Y[yi]
 			cb := img.Cb[ci]
@@ -108,9 +108,10 @@ func yCbCrToGrayAlt(img *image.YCbCr, pixels []float32) {
 // rgbaToGray uses *image.RGBA which is signifiantly faster than the image.Image interface.
 func rgbaToGray(img *image.RGBA, pixels []float32) {
 	s := img.Rect.Max.X - img.Rect.Min.X
+	min := img.Rect.Min
 	for i := 0; i < s; i++ {
 		for j := 0; j < s; j++ {
-			pixels[(i*s)+j] = float32(pixelToGray(img.At(j, i).RGBA()))
+			pixels[(i*s)+j] = float32(pixelToGray(img.At(min.X+j, min.Y+i).RGBA()))
 		}
 	}
 }
